@@ -38,11 +38,18 @@ CheckRecv(T, e) ==
     ELSE IF layer = "raw" /\ p.m.len = 0 /\ ~(e.n = 1 /\ e.zero1) THEN "recv:wrong-bytes"
     ELSE IF ~(layer = "raw" /\ p.m.len = 0) /\ ~(e.n = p.m.len /\ p.m.id \in ToSet(e.mids)) THEN "recv:wrong-bytes"
     ELSE IF layer = "gob" /\ e.tag # (IF p.m.typ = "B" THEN "b" ELSE "") THEN "recv:wrong-bytes"
-    ELSE IF e.rfidx # FileSeq(T, p.m) THEN "recv:descriptors-differ"
-    ELSE IF e.nce # k THEN "recv:cloexec-lost"
-    ELSE IF e.nsame # k THEN "recv:not-the-same-open-file"
-    ELSE IF e.cred # ExpCred(p, T.own) THEN "recv:credentials-differ"
     ELSE IF e.handed # k \/ e.fdd # k THEN "recv:descriptor-ledger"
+    ELSE ""
+
+\* the caller looks at the j-th delivered message -- right away, after later receives, or after the whole
+\* sequence: it must still carry the files (identity, order, close-on-exec) and credentials it came with
+CheckInspect(T, e) ==
+  IF e.j \notin DOMAIN held \/ held[e.j].seen THEN "inspect:harness-order"
+  ELSE LET m == held[e.j].orig IN
+    IF e.rfidx # FileSeq(T, m) THEN "inspect:descriptors-differ"
+    ELSE IF e.nce # m.nfds THEN "inspect:cloexec-lost"
+    ELSE IF e.nsame # m.nfds THEN "inspect:not-the-same-open-file"
+    ELSE IF e.cred # ExpCred([m |-> m], T.own) THEN "inspect:credentials-differ"
     ELSE ""
 
 CheckProbe(T, e) ==
@@ -53,6 +60,7 @@ CheckProbe(T, e) ==
 Check(T, e) == CASE e.op = "send"  -> CheckSend(T, e)
                  [] e.op = "recv"  -> CheckRecv(T, e)
                  [] e.op = "probe" -> CheckProbe(T, e)
+                 [] e.op = "inspect" -> CheckInspect(T, e)
                  [] OTHER -> "unknown-event"
 
 \* one initial state; the first step picks the trace (TLC is much faster on successor states
@@ -62,11 +70,11 @@ TInit ==
   /\ layer = "raw" /\ passcred = FALSE
   /\ q = <<>> /\ acc = <<>> /\ dlv = <<>> /\ lost = {}
   /\ arrived = 0 /\ handed = 0 /\ closed = 0
-  /\ encKnown = {} /\ decKnown = {} /\ pend = {}
+  /\ encKnown = {} /\ decKnown = {} /\ pend = {} /\ held = <<>>
 TPick ==
   /\ t = 0 /\ t' \in 1..N /\ l' = 1
   /\ layer' = Traces[t'].layer /\ passcred' = Traces[t'].passcred
-  /\ UNCHANGED <<q, acc, dlv, lost, arrived, handed, closed, encKnown, decKnown, pend>>
+  /\ UNCHANGED <<q, acc, dlv, lost, arrived, handed, closed, encKnown, decKnown, pend, held>>
 
 TStep ==
   LET T == Traces[t] IN
@@ -79,15 +87,18 @@ TStep ==
                                     /\ (Out(e) # SendImpl(MsgOf(T, e)) => TLCSet(N + t, 1))
                 [] e.op = "recv" -> /\ Recv(ReqOf(e), Out(e))
                                     /\ (Out(e) # RecvImpl(Head(q), ReqOf(e)) => TLCSet(N + t, 1))
+                [] e.op = "inspect" -> Inspect(e.j)
                 [] OTHER -> UNCHANGED svars
      \/ /\ l = Len(T.ev) + 1          \* after the last event: both ends closed, nothing may be left open
         /\ T.endleak = 0
+        /\ \A j \in DOMAIN held : held[j].seen
         /\ UNCHANGED svars
 TSpec == TInit /\ [][TPick \/ TStep]_tvars
 
 Why == LET T == Traces[t] IN
        IF l <= Len(T.ev) THEN Check(T, T.ev[l])
-       ELSE IF l = Len(T.ev) + 1 /\ T.endleak # 0 THEN "end:descriptors-leaked" ELSE ""
+       ELSE IF l = Len(T.ev) + 1 /\ T.endleak # 0 THEN "end:descriptors-leaked"
+       ELSE IF l = Len(T.ev) + 1 /\ \E j \in DOMAIN held : ~held[j].seen THEN "end:harness-message-not-inspected" ELSE ""
 Mark == t = 0 \/ TLCSet(t, IF TLCGet(t)[1] < l - 1 THEN <<l - 1, Why>> ELSE TLCGet(t))
 ASSUME \A i \in 1..N : TLCSet(i, <<-1, "">>) /\ TLCSet(N + i, 0)
 \* the properties of Socket.tla hold along every replayed trace
